@@ -192,7 +192,10 @@ class ActorPool:
                     except Exception:
                         pass
                 parent_conn.close()
-                _actor_main(child_conn)
+                # the fork may have happened inside a trace callback (the simloop
+                # controller dispatches from its line hook): tracing is disabled while a
+                # trace function runs, and the child never returns from it.
+                sys.call_tracing(_actor_main, (child_conn,))
             finally:
                 os._exit(71)
         child_conn.close()
@@ -419,6 +422,7 @@ class Sim:
         self.hasher.update(repr((proc.name, proc.pending, burst)).encode())
         if self.steplog is not None:
             self.steplog.append((proc.name, proc.pending, burst))
+            self.log.append(("step", proc.name, proc.pending, burst, len(self.ch.trace)))
         proc.conn.send(("go", self.now, burst - 1))
         self._pump(proc)
         if self.point_hook:
